@@ -7,6 +7,7 @@ evaluated by the driver on the implementation's output; doubles are compared wit
 the exact values the Lean spec returns.
 """
 import math
+import random
 import warnings
 from fractions import Fraction as Fr
 
@@ -17,7 +18,10 @@ QUICK_N = 1500
 THOROUGH_N = 25000
 QUICK_BUDGET_S = 80
 THOROUGH_BUDGET_S = 900
-RULE = ("charts of 1-40 (thorough: up to 90) tempo points in shuffled row order with repeated bpm values, 0-60 SVs "
+RULE = ("charts arrive through ordinary histories that leave non-default row labels (rows given out of order + "
+        "sorted(), extra rows trimmed with after()/before(), two pieces joined with append(sort=True), Map.rate by 2 or "
+        "1/2, stack arithmetic), on tempo / SV / note lists; "
+        "charts of 1-40 (thorough: up to 90) tempo points in shuffled row order with repeated bpm values, 0-60 SVs "
         "(coinciding with tempo points / each other, before the first tempo point, after the last note), notes and holds "
         "(first note at or after the first tempo point, sometimes exactly on tempo points), five games, override "
         "absent / positive / 0; times and multipliers dyadic and tempos from the exactly representable set (so ties "
@@ -102,16 +106,96 @@ def fl(x):
     return float(F(x))
 
 
+def _apply_list_op(rows, op, make, filler):
+    """builds one list through an ordinary history that ends with exactly `rows` (in this order) but leaves
+    non-default row labels. rows: constructor kwargs; make(rows) -> list instance; filler(offset) -> kwargs"""
+    if not op or not rows:
+        return make(rows)
+    k = op["op"]
+    rnd = random.Random(op.get("seed", 0))
+    if k == "sorted":                       # rows given out of order, then .sorted()
+        perm = list(rows)
+        rnd.shuffle(perm)
+        return make(perm).sorted()
+    if k == "filter":                       # extra rows, trimmed away with after()/before()
+        lo = min(r["offset"] for r in rows)
+        hi = max(r["offset"] for r in rows)
+        below = op.get("seed", 0) % 2 == 0
+        extras = [filler((lo - 1e6 - 7 * j) if below else (hi + 1e6 + 7 * j)) for j in range(max(1, op.get("n", 1)))]
+        allrows = list(rows)
+        for e in extras:
+            allrows.insert(rnd.randrange(0, len(allrows) + 1), e)
+        lst = make(allrows)
+        return lst.after(lo - 5e5, include_end=True) if below else lst.before(hi + 5e5, include_end=True)
+    if k == "append":                       # two pieces joined with append(sort=True)
+        if len(rows) < 2:
+            return make(rows)
+        if op.get("seed", 0) % 2 == 0:
+            first, second = rows[::2], rows[1::2]
+        else:
+            i = 1 + op.get("seed", 0) % (len(rows) - 1)
+            first, second = rows[i:], rows[:i]
+        return make(first).append(make(second), sort=True)
+    raise ValueError(k)
+
+
 def build_map(case):
     Map, Bpm, BpmList, Hit, HitList, Hold, HoldList, Sv, SvList = _classes(case["game"])
-    m = Map()
-    m.bpms = BpmList([Bpm(offset=fl(t), bpm=fl(b)) for t, b in case["bpms"]])
+    hist = case.get("hist") or {}
+    mop = hist.get("map")
+    by = fl(mop["by"]) if mop and mop["op"] == "rate" else 1.0       # 2 or 1/2: exact in doubles
     kw = dict(keysounds=[]) if case["game"] == "quaver" else {}
-    m.hits = HitList([Hit(offset=fl(t), column=i % 4, **kw) for i, t in enumerate(case["notes"])])
-    m.holds = HoldList([Hold(offset=fl(t), column=i % 4, length=fl(l), **kw) for i, (t, l) in enumerate(case.get("holds", []))])
+    m = Map()
+    bp = [dict(offset=fl(t) * by, bpm=fl(b) / by) for t, b in case["bpms"]]
+    m.bpms = _apply_list_op(bp, hist.get("bpms"), lambda rs: BpmList([Bpm(**r) for r in rs]),
+                            lambda o: dict(offset=o, bpm=120.0))
+    hits = [dict(offset=fl(t) * by, column=i % 4, **kw) for i, t in enumerate(case["notes"])]
+    m.hits = _apply_list_op(hits, hist.get("notes"), lambda rs: HitList([Hit(**r) for r in rs]),
+                            lambda o: dict(offset=o, column=0, **kw))
+    holds = [dict(offset=fl(t) * by, column=i % 4, length=fl(l) * by, **kw) for i, (t, l) in enumerate(case.get("holds", []))]
+    m.holds = _apply_list_op(holds, hist.get("notes"), lambda rs: HoldList([Hold(**r) for r in rs]),
+                             lambda o: dict(offset=o, column=0, length=0.0, **kw))
     if Sv is not None:
-        m.svs = SvList([Sv(offset=fl(t), multiplier=fl(x)) for t, x in case.get("svs", [])])
+        sv = [dict(offset=fl(t) * by, multiplier=fl(x)) for t, x in case.get("svs", [])]
+        m.svs = _apply_list_op(sv, hist.get("svs"), lambda rs: SvList([Sv(**r) for r in rs]),
+                               lambda o: dict(offset=o, multiplier=1.0))
+    if mop:
+        if mop["op"] == "rate":
+            m = m.rate(by)
+        elif mop["op"] == "stack":
+            st = m.stack()
+            st.offset += 0.0
+        else:
+            raise ValueError(mop["op"])
+    readback(case, m)
     return m
+
+
+def readback(case, m):
+    """the history must end with exactly the rows of the case, in row order (else the harness is wrong)"""
+    got = [(Fr(float(o)), Fr(float(b))) for o, b in zip(m.bpms.offset.tolist(), m.bpms.bpm.tolist())]
+    want = [(F(t), F(b)) for t, b in case["bpms"]]
+    if got != want:
+        raise AssertionError(f"history does not rebuild the tempo rows: {got[:5]} vs {want[:5]}")
+    if hasattr(m, "svs"):
+        got = [(Fr(float(o)), Fr(float(x))) for o, x in zip(m.svs.offset.tolist(), m.svs.multiplier.tolist())]
+        want = [(F(t), F(x)) for t, x in case.get("svs", [])]
+        if got != want:
+            raise AssertionError(f"history does not rebuild the SV rows: {got[:5]} vs {want[:5]}")
+    got = sorted(Fr(float(o)) for o in m.hits.offset.tolist() + m.holds.offset.tolist())
+    want = sorted([F(t) for t in case["notes"]] + [F(t) for t, _ in case.get("holds", [])])
+    if got != want:
+        raise AssertionError("history does not rebuild the notes")
+
+
+def labels_nondefault(m):
+    out = []
+    for name in ("bpms", "svs", "hits"):
+        if hasattr(m, name):
+            df = getattr(m, name).df
+            if list(df.index) != list(range(len(df))):
+                out.append(name)
+    return out
 
 
 def err_class(e):
@@ -183,6 +267,23 @@ def valid(case):
             return False
         if case.get("override") is not None and F(case["override"]) < 0:
             return False
+        hist = case.get("hist") or {}
+        for key, op in hist.items():
+            if op is None:
+                continue
+            if key == "map":
+                if op.get("op") not in ("rate", "stack") or (op["op"] == "rate" and F(op["by"]) not in (Fr(2), Fr(1, 2))):
+                    return False
+                continue
+            if key not in ("bpms", "svs", "notes") or op.get("op") not in ("sorted", "filter", "append"):
+                return False
+            if not isinstance(op.get("seed", 0), int) or not isinstance(op.get("n", 1), int) or op.get("seed", 0) < 0:
+                return False
+            if op["op"] in ("sorted", "append") and key in ("bpms", "svs"):
+                # the history ends in time order: the rows of the case must be ascending, without ties
+                tt = [F(p[0]) for p in case.get(key, [])]
+                if any(x >= y for x, y in zip(tt[:-1], tt[1:])):
+                    return False
         return exact_floats(case)
     except Exception:
         return False
@@ -315,7 +416,39 @@ def gen_tie(rng, claim, game):
     return _c(claim, game, bp, notes, svs=svs)
 
 
+def gen_hist(rng, c, game):
+    """an ordinary way of arriving at the chart that leaves non-default row labels on its lists"""
+    h = {}
+    if rng.random() < 0.35:
+        return h
+    for key in ("bpms", "svs", "notes"):
+        if rng.random() < 0.4:
+            continue
+        kind = rng.choice(["sorted", "filter", "append"])
+        if key == "svs":
+            ts = [F(t) for t, _ in c["svs"]]
+            if game not in SV_GAMES or not ts:
+                continue
+            if len(set(ts)) != len(ts):
+                kind = "filter"
+        if kind in ("sorted", "append") and key in ("bpms", "svs"):
+            c[key] = sorted(c[key], key=lambda p: F(p[0]))
+        h[key] = dict(op=kind, seed=rng.randrange(0, 1000), n=rng.choice([1, 2, 5]))
+    q = rng.random()
+    if q < 0.25:
+        h["map"] = dict(op="rate", by=R(rng.choice([Fr(2), Fr(1, 2)])))
+    elif q < 0.45:
+        h["map"] = dict(op="stack")
+    return h
+
+
 def gen(rng, tier, i):
+    c = _gen(rng, tier, i)
+    c["hist"] = gen_hist(rng, c, c["game"])
+    return c
+
+
+def _gen(rng, tier, i):
     if rng.random() < 0.05:
         claim = rng.choice(["dominant", "dominant", "speed", "normalize"])
         game = rng.choice(SV_GAMES if claim == "normalize" else GAMES)
@@ -375,6 +508,18 @@ def corpus():
     c.append(_c("speed", "sm", [(0, 100), (1000, 200)], [0, 1000]))     # tie at the last offset, 4 rows (stable regime)
     c.append(_c("speed", "osu", [(0, 100), (1000, 200)], [500], holds=[(700, 5000)], svs=[(1000, 2), (800, 0.5)]))
     c.append(d28_witness())
+    # histories that leave non-default row labels (seeded change C19-C: label-aligned division in sv_normalize)
+    hs = dict(bpms=dict(op="sorted", seed=1, n=1))
+    c.append(_c("normalize", "osu", [(0, 100), (1000, 200), (2500, 50)], [0, 3000], hist=hs))
+    c.append(_c("normalize", "quaver", [(0, 100), (1000, 200), (2500, 50)], [0, 3000], override=150,
+                hist=dict(map=dict(op="rate", by=R(2)))))
+    c.append(_c("normalize", "osu", [(0, 100), (1000, 200), (2500, 50)], [0, 3000], svs=[(500, 2)],
+                hist=dict(bpms=dict(op="filter", seed=4, n=2), map=dict(op="stack"))))
+    c.append(_c("speed", "osu", [(0, 100), (1000, 200), (2500, 50)], [0, 3000], svs=[(500, 2), (1000, 0.5), (2600, 3)],
+                hist=dict(bpms=dict(op="append", seed=2, n=1), svs=dict(op="sorted", seed=3, n=1),
+                          notes=dict(op="filter", seed=5, n=1), map=dict(op="rate", by=R(Fr(1, 2))))))
+    c.append(_c("dominant", "sm", [(0, 100), (1000, 200), (2500, 50)], [0, 3000],
+                hist=dict(bpms=dict(op="append", seed=3, n=1), map=dict(op="stack"))))
     return c
 
 
@@ -391,6 +536,9 @@ def base_tags(case, jc):
             "exact-stream" if exact_stream(case) else "float-stream"]
     if sorted(case["bpms"], key=lambda p: F(p[0])) != case["bpms"]:
         tags.append("unsorted-rows")
+    for key, op in (case.get("hist") or {}).items():
+        if op:
+            tags.append(f"hist-{key}:{op['op']}")
     return tags
 
 
@@ -425,6 +573,7 @@ def run_dominant(case, drv):
     jc = jcase(case)
     tags = base_tags(case, jc)
     m = build_map(case)
+    tags += [f"labels:{x}" for x in labels_nondefault(m)]
     try:
         impl = ("ok", to_fr(dominant_bpm(m)))
     except Exception as e:
@@ -473,6 +622,7 @@ def run_normalize(case, drv):
     jc = jcase(case)
     tags = base_tags(case, jc) + ["override" if case.get("override") is not None else "dominant-ref"]
     m = build_map(case)
+    tags += [f"labels:{x}" for x in labels_nondefault(m)]
     ov = None if case.get("override") is None else fl(case["override"])
     try:
         out = sv_normalize(m) if ov is None else sv_normalize(m, ov)
@@ -543,6 +693,7 @@ def run_speed(case, drv):
     tags = base_tags(case, jc) + ["override" if case.get("override") is not None else "dominant-ref",
                                   "has-sv" if jc["has_sv"] else "no-sv"]
     m = build_map(case)
+    tags += [f"labels:{x}" for x in labels_nondefault(m)]
     ov = None if case.get("override") is None else fl(case["override"])
     try:
         s = scroll_speed(m) if ov is None else scroll_speed(m, ov)
